@@ -82,7 +82,13 @@ func stressOnce(t *testing.T, id int, rnd *rand.Rand) StressRec {
 		if h+k > n+1 {
 			k = n + 1 - h
 		}
-		chunks = append(chunks, chunk{h, h + k})
+		// now and then a chunk starts with the last one or two headers of the chunk below it (another writer's): overlapping
+		// appends; never in the part the deleter may prune (re-appending a pruned header would move the tail back)
+		ov := 0
+		if rnd.Intn(3) == 0 && h-2 > n/4+2 {
+			ov = 1 + rnd.Intn(2)
+		}
+		chunks = append(chunks, chunk{h - ov, h + k})
 		h += k
 	}
 	var errs, headBad, syncedBad atomic.Int64
